@@ -10,6 +10,7 @@ import io
 import itertools
 import shutil
 import warnings
+import numpy as np
 
 from pipefunc import PipeFunc
 
@@ -24,7 +25,7 @@ RULE = ("G-DAG pipelines (N<=2 all, N=3 chain/diamond/fan family; decorated with
         "x cache type {simple, lru, hybrid, disk} x histories up to length L over the alphabet {call(output, cut in arg_combinations, values in {1,2} per name, and the same with each defaulted root argument omitted, full_output F/T), "
         "update_defaults, update_bound, replace(function with another body)}; every step is checked against the uncached twin and against the documented root-argument-key "
         "cache model. quick: L=2 without mutations, and L=3 for the default/bound-decorated N=2 pipelines where the third step directly follows a mutation "
-        "(call; mutation; call); thorough: L=3 everywhere. Map part: cached vs uncached map with repeated input values, sequential and deferred executor; three maps of a cached function with map-scope resources delivered through resources_variable")
+        "(call; mutation; call); thorough: L=3 everywhere. Map part: cached vs uncached map with repeated input values (also with DIFFERENT values of EQUAL Python hash: -1/-2, 0/2**61-1; and with every user function carrying the same __name__), sequential and deferred executor; three maps of a cached function with map-scope resources delivered through resources_variable")
 ASSUMPTIONS = ["a cached pipeline and its uncached twin are rebuilt from the same spec for every path (no shared state)",
                "the documented key model (key = output name + values of the ROOT arguments) is used only to CLASSIFY a mismatch as the known cache-key design finding; the verdict comes from the uncached twin",
                "HybridCache durations are virtual (time.perf_counter/monotonic patched to +1.0 per read inside pipefunc modules)",
@@ -454,6 +455,18 @@ def map_case(cfg):
     for k, v in inputs.items():
         if isinstance(v, list) and len(v) >= 2:
             inputs[k] = [v[0]] * len(v)  # repeated values: x = [x0, x0]
+    if cfg.get("values") == "equal-hash":
+        # DIFFERENT values with EQUAL Python hashes (hash(-1) == hash(-2), hash(0) == hash(2**61 - 1)): a key may use hashes only
+        # to find candidates, never to decide that two argument sets are the same
+        alt = [-1, -2, 0, 2 ** 61 - 1]
+        for k, v in inputs.items():
+            if isinstance(v, list):
+                inputs[k] = [alt[i % 4] for i in range(len(v))]
+            elif isinstance(v, np.ndarray):
+                a = np.empty(v.shape, dtype=object)
+                for j, idx in enumerate(np.ndindex(*v.shape)):
+                    a[idx] = alt[j % 4]
+                inputs[k] = a
     exp, calls = gen_map.ref_map(spec, inputs)
     out = []
     folder = boot.mkscratch("c09m-") if cfg["cache"] == "disk" else None
@@ -461,7 +474,17 @@ def map_case(cfg):
         kw = {"cache_dir": folder, "lru_shared": False} if cfg["cache"] == "disk" else ({"shared": False} if cfg["cache"] in ("lru", "hybrid") else {})
         with warnings.catch_warnings():
             warnings.simplefilter("ignore")
-            p = gen_map.build(spec, cache=True, cache_type=cfg["cache"], cache_kwargs=kw)
+            if cfg.get("same_name"):
+                # every user function has the SAME __name__ (closures of one factory, lambdas): entries are told apart by
+                # the output name, not by what the wrapped callable happens to be called
+                from pipefunc import Pipeline
+                fs = gen_map.build_funcs(spec, cache=True)
+                for pf in fs:
+                    pf.func.__name__ = pf.func.__qualname__ = "fn"
+                    pf.__name__ = "fn"
+                p = Pipeline(fs, cache_type=cfg["cache"], cache_kwargs=kw)
+            else:
+                p = gen_map.build(spec, cache=True, cache_type=cfg["cache"], cache_kwargs=kw)
         for rep in (1, 2):
             terms.LOG.clear()
             try:
@@ -647,6 +670,8 @@ def plan(tier, seed):
     for pipe in c03.PIPES:
         for ct in ("simple", "lru", "hybrid", "disk"):
             units.append(("map-cached-vs-uncached", ("map", {"pipe": pipe, "cache": ct})))
+            units.append(("map-cached-vs-uncached", ("map", {"pipe": pipe, "cache": ct, "values": "equal-hash"})))
+            units.append(("map-cached-vs-uncached", ("map", {"pipe": pipe, "cache": ct, "same_name": True})))
         for ct in ("simple", "lru", "hybrid"):
             units.append(("map-cached-deferred-executor-deviations<=1", ("mapdfs", {"pipe": pipe, "cache": ct}, 1 if not thorough else 2)))
         if thorough or pipe in ("two-maps-reduce", "tuple-zip"):
